@@ -306,6 +306,7 @@ type obligationResult struct {
 	Reach       map[string]map[string]uint64
 	ReachND     map[string][]nondetRec
 	ReachCount  map[string]int
+	ReachObs    map[string][]string
 	Incon       []string
 	Queries     int
 	Sat, Unsat  int
@@ -333,7 +334,7 @@ func (e *engine) newMachine() *machine {
 func (m *machine) resetForPath(prefix []int) {
 	m.globals = map[*ssa.Global]*value{}
 	m.inited = map[*ssa.Package]bool{}
-	m.p = &pathState{prefix: append([]int{}, prefix...), nondetIx: map[string]int{}, reach: map[string]map[string]uint64{}, reachND: map[string][]nondetRec{}}
+	m.p = &pathState{prefix: append([]int{}, prefix...), nondetIx: map[string]int{}, reach: map[string]map[string]uint64{}, reachND: map[string][]nondetRec{}, reachObs: map[string][]string{}}
 	m.steps = 0
 	m.depth = 0
 	m.hashMemo = nil
@@ -390,7 +391,7 @@ func panicString(tp targetPanic) string {
 // runObligation explores all paths of one harness function.
 func (e *engine) runObligation(fn *ssa.Function, maxPaths int) *obligationResult {
 	t0 := time.Now()
-	res := &obligationResult{Name: fn.Name(), Reach: map[string]map[string]uint64{}, ReachND: map[string][]nondetRec{}, ReachCount: map[string]int{}, Funcs: map[string]bool{}}
+	res := &obligationResult{Name: fn.Name(), Reach: map[string]map[string]uint64{}, ReachND: map[string][]nondetRec{}, ReachCount: map[string]int{}, ReachObs: map[string][]string{}, Funcs: map[string]bool{}}
 	var mu sync.Mutex
 	work := [][]int{{}}
 	active := 0
@@ -481,6 +482,7 @@ func (e *engine) runObligation(fn *ssa.Function, maxPaths int) *obligationResult
 					if _, ok := res.Reach[id]; !ok {
 						res.Reach[id] = mdl
 						res.ReachND[id] = ps.reachND[id]
+						res.ReachObs[id] = ps.reachObs[id]
 					}
 				}
 				res.Observes = append(res.Observes, ps.observes...)
